@@ -51,7 +51,7 @@ theorem resume_spec_wp {g : G} (ok : g.Ok) (hcv : ∀ k, g.cvf k = none) (tag : 
     (hnf : nf c.serial = g.hn c.serial) (hef : ef c.serial = g.he c.serial) (hcf : cf c.serial = g.hc c.serial) :
     WP (g.sc.newObserver nf ef cf fun o => (oScript tag true evs).sub o) w
       (Post g c lv (resumeGo (fun e => Stream.ofScript (fs e)) (Stream.ofScript evs) c)) := by
-  apply newObserver_spec ok h hnf hef hcf
+  apply newObserver_spec ok h ha hnf hef hcf
   intro w1 h1
   apply script_sub h1 tag evs (s := c.serial) (by simp [Ctl.newObserver]) (by simp)
   intro w2 h2
@@ -68,7 +68,7 @@ theorem resume_spec_wp {g : G} (ok : g.Ok) (hcv : ∀ k, g.cvf k = none) (tag : 
     apply (abortObserve_spec ok h3 c.serial hmem).conseq
     intro w4 h4
     simp only [Ctl.abortObserve, Ctl.newObserver, hmem, ↓reduceIte] at h4 ⊢
-    apply newObserver_spec ok h4 (by rw [hn]) (by rw [he1]) (by rw [hc])
+    apply newObserver_spec ok h4 ha (by rw [hn]) (by rw [he1]) (by rw [hc])
     intro w5 h5
     apply script_sub h5 (tagF e) (fs e) (s := c.serial + 1) (by simp [Ctl.newObserver]) (by simp)
     intro w6 h6
